@@ -235,9 +235,90 @@ def gen_ops(rng, kind, cap, nops, single=None):
     return ops
 
 
+def large_probes(sizes):
+    """every copy primitive once per (buffer kind, size, offset) at sizes far above what the histories use (a
+    special case above some size threshold would only show here).  Judged here against the same byte-list
+    semantics as the model (update = splice at the offset, read = slice): expected bytes are computed with plain
+    bytes slicing.  Returns a list of mismatch descriptions (each a replayable parameter record)."""
+    bad = []; nprobes = 0
+    PAD = 40
+    def fill(b, cap):
+        pat = (np.arange(cap, dtype=np.int64) * 7 % 253).astype(np.uint8).tobytes()
+        b.update_from_buffer(0, pat)
+        return pat
+    def whole(b):
+        buf = b.buffer
+        return buf.view(np.uint8).tobytes() if isinstance(buf, np.ndarray) else bytes(buf)
+    def note(prim, kind, n, off, extra, got, exp):
+        if got != exp:
+            m = min(len(got), len(exp))
+            first = next((i for i in range(m) if got[i] != exp[i]), m)
+            bad.append({"primitive": prim, "kind": kind, "n": n, "offset": off, "extra": extra, "first_wrong_byte": first,
+                        "len_got": len(got), "len_expected": len(exp)})
+    for kind in ("numpy", "bytearray"):
+        for n in sizes:
+            for off in (0, 8, 13):
+                # ---- nplike, with and without conversion
+                for sdt, ddt in (("float64", "float64"), ("int64", "float64"), ("float64", "float32"), ("int32", "int64"),
+                                 ("int64", "int16"), ("uint8", "float64"), ("float32", "float64")):
+                    src = (np.arange(n) % 251).astype(sdt)
+                    dd = np.dtype(ddt)
+                    cap = off + n * dd.itemsize + PAD
+                    b = KINDS[kind](capacity=cap, context=CTX); pat = fill(b, cap)
+                    nprobes += 1
+                    try:
+                        b.update_from_nplike(off, dd, src)
+                        conv = src.astype(dd).tobytes()
+                        note("update_from_nplike", kind, n, off, {"src": sdt, "dest": ddt}, whole(b), pat[:off] + conv + pat[off + len(conv):])
+                    except BaseException as e:  # noqa
+                        bad.append({"primitive": "update_from_nplike", "kind": kind, "n": n, "offset": off, "extra": {"src": sdt, "dest": ddt}, "raises": repr(e)[:200]})
+                # ---- byte-wise primitives
+                cap = off + n + PAD
+                data = (np.arange(n + 5, dtype=np.int64) * 11 % 251).astype(np.uint8).tobytes()
+                for prim in ("update_from_buffer", "update_from_native", "update_from_xbuffer/same", "update_from_xbuffer/other",
+                             "update_from_xbuffer/otherkind", "to_bytearray", "to_native", "copy_to_native", "to_nplike", "grow"):
+                    b = KINDS[kind](capacity=cap, context=CTX); pat = fill(b, cap)
+                    nprobes += 1
+                    try:
+                        if prim == "update_from_buffer":
+                            b.update_from_buffer(off, data[:n]); note(prim, kind, n, off, {}, whole(b), pat[:off] + data[:n] + pat[off + n:])
+                        elif prim == "update_from_native":
+                            b.update_from_native(off, native(kind, data), 3, n); note(prim, kind, n, off, {"src_offset": 3}, whole(b), pat[:off] + data[3:3 + n] + pat[off + n:])
+                        elif prim.startswith("update_from_xbuffer"):
+                            sk = {"same": kind, "other": kind, "otherkind": "bytearray" if kind == "numpy" else "numpy"}[prim.split("/")[1]]
+                            sb = mkbuf(sk, data, CTX if prim.endswith("same") else CTX2)
+                            b.update_from_xbuffer(off, sb, 2, n); note(prim, kind, n, off, {"src_offset": 2}, whole(b), pat[:off] + data[2:2 + n] + pat[off + n:])
+                            note(prim + "/source-unchanged", kind, n, off, {}, whole(sb), data)
+                        elif prim in ("to_bytearray", "to_native"):
+                            r = getattr(b, prim)(off, n); note(prim, kind, n, off, {}, bytes(native_bytes(r)), pat[off:off + n])
+                            note(prim + "/buffer-unchanged", kind, n, off, {}, whole(b), pat)
+                        elif prim == "copy_to_native":
+                            d = native(kind, data); b.copy_to_native(d, 4, off, n)
+                            note(prim, kind, n, off, {"dest_offset": 4}, bytes(native_bytes(d)), data[:4] + pat[off:off + n] + data[4 + n:])
+                            note(prim + "/buffer-unchanged", kind, n, off, {}, whole(b), pat)
+                        elif prim == "to_nplike":
+                            m8 = n // 8
+                            o8 = off if off % 8 == 0 else 16
+                            v = b.to_nplike(o8, np.dtype("int64"), (m8,))
+                            note(prim, kind, n, o8, {}, v.tobytes(), pat[o8:o8 + 8 * m8])
+                            v[m8 - 1] = -2; v[0] = -3
+                            exp = bytearray(pat); exp[o8:o8 + 8] = np.int64(-3).tobytes(); exp[o8 + 8 * (m8 - 1):o8 + 8 * m8] = np.int64(-2).tobytes()
+                            note(prim + "/write-through-view", kind, n, o8, {}, whole(b), bytes(exp))
+                        elif prim == "grow":
+                            b.grow(n + 3); got = whole(b)
+                            note(prim, kind, n, off, {}, got[:cap], pat)
+                            if len(got) < cap + n + 3: bad.append({"primitive": "grow", "kind": kind, "n": n, "offset": off, "extra": {}, "capacity_after": len(got)})
+                    except BaseException as e:  # noqa
+                        bad.append({"primitive": prim, "kind": kind, "n": n, "offset": off, "extra": {}, "raises": repr(e)[:200]})
+    return bad, nprobes
+
+
 def main():
     req = json.load(sys.stdin)
     out = []
+    if "large" in req:
+        bad, nprobes = large_probes(req["large"])
+        print(json.dumps({"bad": bad, "probes": nprobes})); return
     if "replay" in req:
         for h in req["replay"]:
             # arrays for upd_nplike are rebuilt from their recorded description
